@@ -125,8 +125,13 @@ def bounds(tier, seed):
 
 # ------------------------------------------------------------------------------------------------
 def _check_instant(res: fw.Result, sub: str, t: datetime, prev_jd, item):
-    jd = datetimeToJulianDate(t)
-    back = julianDateToDatetime(jd)
+    try:
+        jd = datetimeToJulianDate(t)
+        back = julianDateToDatetime(jd)
+    except Exception as exc:  # noqa: BLE001
+        res.violate(f"{sub}/roundtrip", {"t": t.isoformat(), "second": t.second}, signature=f"C05/roundtrip/exception/{type(exc).__name__}",
+                    observed=f"{type(exc).__name__}: {exc}", expected=t.isoformat(), item=item)
+        return prev_jd
     delta = (back - t).total_seconds()
     nontriv = t.second != 0
     ok = delta == 0.0
